@@ -5,6 +5,7 @@ import (
 	"fmt"
 	"math"
 
+	"github.com/EliCDavis/polyform/formats/ply"
 	"github.com/EliCDavis/polyform/formats/splat"
 	"github.com/EliCDavis/polyform/modeling"
 	zz "github.com/EliCDavis/polyform/zzverif"
@@ -136,4 +137,121 @@ func ZZ_C15_SplatReadDequant() {
 		same(rot.Component(k), (float64(rec[28+k])-128)/128, "rotation byte de-quantises to (b-128)/128")
 	}
 	zz.Reach("read")
+}
+
+// PLY splat export: SplatPly.Write then ply.ReadMesh preserves count, order and every splat attribute (position,
+// normal, colour coefficients, scale, rotation, opacity, higher harmonics) at float32 precision.
+func ZZ_C15_PlySplatExport() {
+	n := zz.Choose("n", zz.Bound("N")+1)
+	f := func(name string, i int) float64 { return zz.Float64(fmt.Sprintf("%s%d", name, i)) }
+	v3 := func(name string, i int) vector3.Float64 {
+		return vector3.New(f(name+".x", i), f(name+".y", i), f(name+".z", i))
+	}
+	pos, nrm, fdc, scl := make([]vector3.Float64, n), make([]vector3.Float64, n), make([]vector3.Float64, n), make([]vector3.Float64, n)
+	rot := make([]vector4.Float64, n)
+	op, r0, r44 := make([]float64, n), make([]float64, n), make([]float64, n)
+	for i := 0; i < n; i++ {
+		pos[i], nrm[i], fdc[i], scl[i] = v3("pos", i), v3("nrm", i), v3("fdc", i), v3("scl", i)
+		rot[i] = vector4.New(f("rot.x", i), f("rot.y", i), f("rot.z", i), f("rot.w", i))
+		op[i], r0[i], r44[i] = f("op", i), f("rest0_", i), f("rest44_", i)
+	}
+	v1 := map[string][]float64{modeling.OpacityAttribute: op}
+	withRest := zz.Bool("higher harmonics present")
+	if withRest {
+		v1["f_rest_0"] = r0
+		v1["f_rest_44"] = r44
+	}
+	v3s := map[string][]vector3.Float64{modeling.PositionAttribute: pos, modeling.ScaleAttribute: scl, modeling.FDCAttribute: fdc}
+	withNormal := zz.Bool("normals present")
+	if withNormal {
+		v3s[modeling.NormalAttribute] = nrm
+	}
+	m := modeling.NewPointCloud(map[string][]vector4.Float64{modeling.RotationAttribute: rot}, v3s, nil, v1, nil)
+	zz.Reach("input")
+	buf := zz.NewBuf()
+	err := ply.SplatPly{Mesh: m}.Write(buf)
+	zz.Assert(err == nil, "SplatPly.Write failed")
+	if err != nil {
+		return
+	}
+	back, err := ply.ReadMesh(buf.Reader(-1))
+	zz.Assert(err == nil, "ply.ReadMesh failed on the splat export")
+	if err != nil {
+		return
+	}
+	zz.Reach("read-back")
+	zz.Assert(back.AttributeLength() == n, "ply splat export: number of splats preserved")
+	if back.AttributeLength() != n || n == 0 {
+		return
+	}
+	f32 := func(x float64) float64 { return float64(float32(x)) }
+	same3 := func(attr string, want []vector3.Float64) {
+		zz.Assert(back.HasFloat3Attribute(attr), "ply splat export: attribute present: "+attr)
+		if !back.HasFloat3Attribute(attr) {
+			return
+		}
+		got := back.Float3Attribute(attr)
+		for i := 0; i < n; i++ {
+			g := got.At(i)
+			zz.Assert(g.X() == f32(want[i].X()) && g.Y() == f32(want[i].Y()) && g.Z() == f32(want[i].Z()), "ply splat export: "+attr+" of splat i is the float32 image of splat i")
+		}
+	}
+	same1 := func(attr string, want []float64) {
+		zz.Assert(back.HasFloat1Attribute(attr), "ply splat export: attribute present: "+attr)
+		if !back.HasFloat1Attribute(attr) {
+			return
+		}
+		got := back.Float1Attribute(attr)
+		for i := 0; i < n; i++ {
+			zz.Assert(got.At(i) == f32(want[i]), "ply splat export: "+attr+" of splat i is the float32 image of splat i")
+		}
+	}
+	same3(modeling.PositionAttribute, pos)
+	same3(modeling.FDCAttribute, fdc)
+	same3(modeling.ScaleAttribute, scl)
+	if withNormal {
+		same3(modeling.NormalAttribute, nrm)
+	}
+	same1(modeling.OpacityAttribute, op)
+	if withRest {
+		same1("f_rest_0", r0)
+		same1("f_rest_44", r44)
+	}
+	zz.Assert(back.HasFloat4Attribute(modeling.RotationAttribute), "ply splat export: rotation present")
+	if back.HasFloat4Attribute(modeling.RotationAttribute) {
+		got := back.Float4Attribute(modeling.RotationAttribute)
+		for i := 0; i < n; i++ {
+			g := got.At(i)
+			zz.Assert(g.X() == f32(rot[i].X()) && g.Y() == f32(rot[i].Y()) && g.Z() == f32(rot[i].Z()) && g.W() == f32(rot[i].W()), "ply splat export: rotation of splat i is the float32 image of splat i")
+		}
+	}
+}
+
+// opacity byte: for every finite opacity (logit) the stored byte is within one 8-bit step of sigmoid(opacity)*255.
+// math.Exp is a contract stub in the engine (non-negative, not NaN, bracketed by a table of the monotone function),
+// so the saturated ends - sigmoid rounding to exactly 0 or 1 - are part of the explored range.
+func ZZ_C15_SplatOpacityByte() {
+	x := zz.Float64("opacity")
+	pos := []vector3.Float64{vector3.Zero[float64]()}
+	fdc := []vector3.Float64{vector3.Zero[float64]()}
+	rot := []vector4.Float64{vector4.Zero[float64]()}
+	scale := make([]vector3.Float64, 1)
+	m := modeling.NewPointCloud(
+		map[string][]vector4.Float64{modeling.RotationAttribute: rot},
+		map[string][]vector3.Float64{modeling.PositionAttribute: pos, modeling.ScaleAttribute: scale, modeling.FDCAttribute: fdc},
+		nil,
+		map[string][]float64{modeling.OpacityAttribute: {x}},
+		nil)
+	zz.Reach("input")
+	buf := zz.NewBuf()
+	err := splat.Write(buf, m)
+	zz.Assert(err == nil, "splat.Write failed")
+	if buf.Len() != 32 {
+		return
+	}
+	b := float64(buf.B[27])
+	alpha := 1. / (1 + math.Exp(-x))
+	ideal := alpha * 255
+	zz.Assert(b-ideal <= 1, "opacity byte within one step of sigmoid(opacity)*255 (too large)")
+	zz.Assert(ideal-b <= 1, "opacity byte within one step of sigmoid(opacity)*255 (too small)")
 }
